@@ -47,8 +47,12 @@ def _run_body(fi, env, what):
 
 
 def base_env(repo):
+    from ..pkgenv import bind_module_constants
+
     voc = type_vocabulary(repo)
-    return {"supported_types": list(voc["supported_types"]), "addable_types": list(voc["addable_types"]), "primitive_gates": list(voc["primitive_gates"])}
+    env = {"supported_types": list(voc["supported_types"]), "addable_types": list(voc["addable_types"]), "primitive_gates": list(voc["primitive_gates"])}
+    bind_module_constants(repo.tree[FILE], env)  # module-level lookup tables a refactoring may introduce
+    return env
 
 
 def check_connect(chk, repo, sup):
